@@ -26,15 +26,15 @@ Next ==
   \/ (\E ok \in B : BuildEval(ok) /\ Same)
   \/ (BuildEnd /\ Same)
   \/ (nextAid < MaxTrials /\ \E ok \in B : CSet(nextAid, ok) /\ Fresh)
-  \/ (\E ok \in B : CSetEval(ok) /\ Same)
+  \/ (\E ok \in B, keep \in B : (keep => Stale) /\ CSetEval(ok, keep) /\ Same)
   \/ (CSetEnd /\ Same)
-  \/ (phase = "built" /\ FitStart(Pat, FALSE) /\ Same)
+  \/ (phase = "built" /\ FitStart(Pat, FALSE, own # -1) /\ Same)
   \/ (\E k \in 0..(NP - 1), ok \in B : Deriv(k, ok) /\ Same)
   \/ (nextAid < MaxTrials /\ nfev < Pat * (NP + 1) /\ \E ok \in B : TrialSet(nextAid, ok) /\ Fresh)
   \/ (\E ok \in B : EvalAfterFailedSet(ok) /\ Same)
-  \/ (\E ok \in B, dec \in Decisions : TrialEval(ok, dec) /\ Same)
+  \/ (\E ok \in B, dec \in Decisions, keep \in B : (keep => Stale) /\ TrialEval(ok, dec, keep) /\ Same)
   \/ (\E ok \in B : ResetSet(acc, ok) /\ Same)
-  \/ (\E ok \in B : ResetEval(ok) /\ Same)
+  \/ (\E ok \in B, keep \in B : (keep => Stale) /\ ResetEval(ok, keep) /\ Same)
   \/ (LMTerminable /\ FitEndStep /\ Same)
   \/ (Stale /\ \E ok \in B : StaleBuildEval(ok) /\ Same)
   \/ (Stale /\ \E ok \in B : StaleCSetEval(ok) /\ Same)
@@ -44,6 +44,8 @@ Spec == Init /\ [][Next]_vars
 \* C04: a fit that ends without any failure leaves the accepted parameters in the model,
 \* with the cache computed for them
 DoneOk == (phase = "done" /\ ~faultSeen /\ ~seenNone) => (tgt = acc /\ own = acc)
+\* C09: at every point where the caller / optimizer can look, whatever is cached is current
+NeverStale == (own # -1 /\ ~Pending) => own = tgt
 \* C09: after a failure during an update nothing is exposed; whatever is exposed is current
 NoStale == Coherent
 \* C09 as an action property: a step out of a "parameter application failed" phase never fills the cache
